@@ -32,3 +32,53 @@ def generic_search(mod, ctx, rng, tier='quick'):
                 if len(found) >= 3:
                     return found
     return found
+
+
+# ---- the Coq-checked conformance certificate (Spec/Recognise.v, sound by Proofs/Certify.v) ----
+# Every successful encoding without ECI is sent back to the extracted checker together with the input bytes: `certify`
+# accepts only if the stream is the rendering of a legal script of Spec/Stream16022.v spelling these bytes.
+CERT = {'last': None}
+_H05 = [91, 41, 62, 30, 48, 53, 29]
+_H06 = [91, 41, 62, 30, 48, 54, 29]
+
+
+def macro_body(cfg):
+    d = cfg['data']
+    if cfg['macros'] and not cfg['fnc1'] and len(d) >= 9 and d[-2:] == [30, 4]:
+        if d[:7] == _H05:
+            return 236, d[7:-2]
+        if d[:7] == _H06:
+            return 237, d[7:-2]
+    return None, d
+
+
+def cert_model_line(c, io):
+    line = model_line(c, io)
+    cfg = c['cfg']
+    if io and io.startswith('ok ') and cfg.get('eci') is None and line != c['line']:
+        dcw = io.split(' ')[2]
+        m, body = macro_body(cfg)
+        prefix = 232 if cfg['fnc1'] else m
+        line += ' K%s;%s;%s' % ('N' if prefix is None else prefix, dcw, ','.join(map(str, body)) or '-')
+    return line
+
+
+def cert_canon_model(mo, prof):
+    CERT['last'] = None
+    if ' cert=' in mo:
+        mo, cert = mo.rsplit(' cert=', 1)
+        CERT['last'] = cert
+    return mo
+
+
+def cert_verdict(c, ctx):
+    """None if certified or not applicable, otherwise the reason"""
+    cert = CERT['last']
+    CERT['last'] = None
+    if c['cfg'].get('eci') is None and cert is not None:
+        st = ctx.stats.setdefault('coq_certificate', {'certified': 0, 'rejected': 0})
+        st['certified' if cert == '1' else 'rejected'] += 1
+        if cert != '1':
+            return ('the Coq-checked certificate rejects the stream: it is not the rendering of a legal script of '
+                    'Spec/Stream16022.v for these bytes')
+    return None
